@@ -726,7 +726,9 @@ def sectionOracle (m : MeshF) (sd : V3 Rat → Rat) (colF : Option (V3 Float →
        let V := (vp.map q3).toArray
        let v := verdictCheck S e t "pair"
        if v != "pass" then v else
-       if segs.any (fun (a, b) => a ≥ V.size || b ≥ V.size || a == b) then "fail bad-segment-index" else
+       -- a zero-length segment `[a, a]` is the chord of a degenerate input triangle (repeated vertex index); otherwise an error
+       let degTri := m.tris.any fun (a, b, c) => a == b || b == c || c == a
+       if segs.any (fun (a, b) => a ≥ V.size || b ≥ V.size || (a == b && !degTri)) then "fail bad-segment-index" else
        if V.toList.any (fun p => rabs (sd p) > e + t * 1000) then "fail polyline-vertex-off-plane" else
        let edges := m.tris.flatMap fun (a, b, c) => [(a, b), (b, c), (c, a)]
        let onMesh (p : V3 Rat) : Bool := edges.any fun (a, b) => onSegment P[a]! P[b]! p scale
